@@ -19,4 +19,11 @@ Refines == cs.ok
 SameBoundary == tiled => cs.b = bnd
 \* the contract's "open" flag agrees with the decoder being inside a transmission
 OpenAgrees == cs.open = (dec.st \in {"normal", "escchars", "escpayload"})
+\* ties proofs/ZeroCache to the detailed decoder: between escapes, the buffer followed by the withheld zeros is exactly
+\* the unescaped data of the open transmission, and as many zeros are withheld as the data ends with (at most 4)
+ZeroCacheInv ==
+  (dec.st = "normal" /\ cs.open /\ cs.ok) =>
+    LET data == Unescape(SubSeq(stream, cs.b + 9, Len(stream)), 1) IN
+    /\ dec.buf \o Rep(0, dec.zc) = data
+    /\ dec.zc = Min(TrailingRun(data, 0), 4)
 =============================================================================
